@@ -212,12 +212,23 @@ impl Sys for WsSys {
                         v.push(Act::New { t, status: "recurring".into() });
                         v.push(Act::New { t, status: "completed".into() });
                     }
+                    if t == 2 {
+                        // a status this version does not know (older data, newer versions)
+                        v.push(Act::New { t, status: "waiting".into() });
+                    }
                 }
                 Some(task) => {
                     let cur = task.get("status").cloned().unwrap_or_default();
                     for st in ["pending", "completed", "deleted"] {
                         if cur != st {
                             v.push(Act::Status { t, status: st.into() });
+                        }
+                    }
+                    if t == 2 {
+                        for st in ["recurring", "waiting"] {
+                            if cur != st {
+                                v.push(Act::Status { t, status: st.into() });
+                            }
                         }
                     }
                     v.push(Act::Purge { t });
@@ -404,7 +415,7 @@ pub fn replay_trace(sys: &WsSys, tr: &[Act], verbose: bool) -> Result<(), String
 pub fn run(opts: &Opts) -> i32 {
     let rep = Report::new("C15", "model_checking", opts);
     rep.set("exhaustive", true);
-    rep.set("rule", "histories over {create pending/recurring/completed, set status pending/completed/deleted, purge (Delete), rebuild(renumber=false|true), undo, removal/completion arriving by sync from a second replica} on 3-4 tasks, in-memory and SQLite, plus one working set of 300 (thorough 1500) tasks; after every rebuild (explicit, after sync, after undo) the statement's obligations are evaluated against the previous working set; every commit is checked to append newly pending tasks after all numbers in use and move nothing; non-trivial = states whose working set has a gap or an entry whose task is gone or no longer pending");
+    rep.set("rule", "histories over {create pending/recurring/completed/unknown-status, set status pending/completed/deleted (one task also recurring and an unknown status), purge (Delete), rebuild(renumber=false|true), undo, removal/completion arriving by sync from a second replica} on 3-4 tasks, in-memory and SQLite, plus one working set of 300 (thorough 1500) tasks; after every rebuild (explicit, after sync, after undo) the statement's obligations are evaluated against the previous working set; every commit is checked to append newly pending tasks after all numbers in use and move nothing; non-trivial = states whose working set has a gap or an entry whose task is gone or no longer pending");
     let q = opts.tier == Tier::Quick;
     let spaces: Vec<(&str, WsSys, usize)> = vec![
         ("mem-3tasks", WsSys::new(Kind::Mem, 3, false), if q { 7 } else { 9 }),
